@@ -28,6 +28,8 @@ def to_sx(o):
     if isinstance(o, bool):
         return '1' if o else '0'
     if isinstance(o, int):
+        if abs(o) >= 1 << 61:       # big integers travel as hex (see ocaml/driver.ml)
+            return ('-x%x' % -o) if o < 0 else ('x%x' % o)
         return str(o)
     if hasattr(o, 'item') and not isinstance(o, (list, tuple)):   # numpy scalar
         v = o.item()
@@ -57,6 +59,10 @@ def parse_sx(s):
                 out.append(item())
             pos += 1
             return out
+        if t.startswith('x'):
+            return int(t[1:], 16)
+        if t.startswith('-x'):
+            return -int(t[2:], 16)
         return int(t)
     return item()
 
@@ -75,6 +81,30 @@ def coq_sx(o):
     if o is None:
         return '(L [])'
     return '(L [' + '; '.join(coq_sx(x) for x in o) + '])'
+
+
+class TimeLimit(Exception):
+    pass
+
+
+class time_limit:
+    """with time_limit(seconds): ... raises TimeLimit (SIGALRM; main thread; interrupts Python-level loops only)"""
+    def __init__(self, seconds):
+        self.seconds = seconds
+
+    def _handler(self, signum, frame):
+        raise TimeLimit()
+
+    def __enter__(self):
+        import signal
+        self.old = signal.signal(signal.SIGALRM, self._handler)
+        signal.alarm(int(self.seconds))
+
+    def __exit__(self, *a):
+        import signal
+        signal.alarm(0)
+        signal.signal(signal.SIGALRM, self.old)
+        return False
 
 
 # ----------------------------------------------------------------------------- locking / shell
@@ -107,7 +137,7 @@ def regen():
     """run every translator; returns {name: dict(ok, error, shas)}"""
     sys.path.insert(0, os.path.join(VERIF, 'tools', 'translate'))
     res = {}
-    for name in ('tr_sym', 'tr_geom', 'tr_cache', 'tr_step', 'tr_gates'):
+    for name in ('tr_sym', 'tr_geom', 'tr_cache', 'tr_krylov', 'tr_step', 'tr_gates'):
         path = os.path.join(VERIF, 'tools', 'translate', name + '.py')
         if not os.path.exists(path):
             continue
